@@ -1036,3 +1036,13 @@ package kafka
 //@   callsite iface promise.await ensures result1 == nil ==> typeis(result0, "*findcoordinator.Response") && !isnil(deref(result0, "findcoordinator.Response"))
 //@   callsite (*connPool).grabClusterConn requires brokerID < 0
 //@   callsite (*connPool).grabBrokerConn requires $2 >= 0 && $2 == brokerID
+
+//@ property C07
+
+// The per-partition queue is first-in first-out: Get removes and returns the head of the queue as it was when Get stopped
+// waiting, and leaves the other batches in their order.
+//@ func (*batchQueue).Get
+//@   option noframe
+//@   modifies heap
+//@   ensures result != nil ==> result == atexit(0, b.queue[0]) && same(b.queue, atexit(0, b.queue[1:]))
+//@   ensures result != nil ==> (forall i :: 0 <= i && i < len(b.queue) ==> b.queue[i] == atexit(0, b.queue[i + 1]))
